@@ -203,6 +203,11 @@ impl ZerokitMerkleTree for PmTree {
         {
             return Err(Report::msg("provided range exceeds set size"));
         }
+        // an empty range writes nothing; the persistent tree would move its leaf count to
+        // `start` (or index an empty slice) for it
+        if v.is_empty() {
+            return Ok(());
+        }
         self.tree
             .set_range(start, v.clone().into_iter())
             .map_err(|e| Report::msg(e.to_string()))?;
